@@ -193,3 +193,7 @@ def check(chk):
     good = len(rs) == 1 and 'ProtocolVersionUnsupported(endpoint, conn.protocol_version)' in src(rs[0].ast) and all(f.knows('conn.is_unsupported_proto_version') is True and f.knows('conn.last_error') is True for f, _ in fl.at(rs[0]))
     chk.judge(good, 'C41.unsupported', fa_, 'factory raises ProtocolVersionUnsupported(endpoint, conn.protocol_version) for that flag', 'factory conversion changed')
     chk.extra['checker_cmd'] = './check C41'
+
+    # the rejection of a protocol version arrives in the *server's* frame generation: the header layout follows the received version byte
+    chk.rule('C41.frame', 'the frame header layout is chosen from the version byte of the received frame (shared with C05)')
+    chk.borrow('C05', {'C05.header': 'C41.frame'}, 'the ERROR frame of a v1/v2-only server is mis-parsed, factory() times out and no downgrade is attempted')
